@@ -29,7 +29,8 @@ def mutate(rng, t, named):
         pl = rng.randrange(2)
         ents = named[pl]
         kind = rng.choice(["dup_entry", "dup_infoset", "drop", "unknown", "other_player", "bad_action",
-                           "bad_single_action", "weird_weight", "zero_infoset", "empty_actions", "reorder"])
+                           "bad_single_action", "weird_weight", "zero_infoset", "empty_actions", "reorder", "tiny_infoset",
+                           "tiny_infoset"])
         if kind == "reorder":
             rng.shuffle(ents)
         elif kind == "dup_entry" and ents:
@@ -62,6 +63,13 @@ def mutate(rng, t, named):
             e = rng.choice(ents)
             for ap in e[1]:
                 ap[1] = f2b(rng.choice([0.0, -0.0]))
+        elif kind == "tiny_infoset" and ents:
+            # every weight of one infoset far down the binary64 range (still finite, non-negative, not all zero):
+            # the result must be weight / total all the same
+            e = rng.choice(ents)
+            k = rng.choice([2.0 ** -60, 1e-20, 1e-150, 1e-300, 2.0 ** -1060])
+            for ap in e[1]:
+                ap[1] = f2b(b2f(ap[1]) * k)
         elif kind == "empty_actions" and ents:
             rng.choice(ents)[1] = []
         else:
